@@ -203,9 +203,56 @@ def check(repo, col, tier):
 # --------------------------------------------------------------------------------------
 
 
+def _padded_sizes(repo, col, R, fi):
+    """The arrays of the custom solver are addressed through the solve indexer (`idx.mask(rows)`, `idx.first(b)`, ...), i.e. in the
+    PADDED layout: every branch of a tree level has as many slots as the longest branch of that level.  They must therefore have
+    `idx.cumsum_ncomp[-1]` entries.  The number of real compartments (`len(internal_node_inds)`, `len(voltages)`) is smaller as soon as
+    two branches of a level differ in length; jax then silently drops the scatters beyond the end and clamps the gathers."""
+    ex = idxm.expander(repo, fi)
+    terms = []
+    for c in ex.calls:
+        try:
+            terms.append(ex.term(c))
+        except Exception:
+            pass
+    seen, n = set(), 0
+    for t in terms:
+        for x in t.walk():
+            if not (x.op == "sub" and x.args[0].op == "attr" and x.args[0].name == "at"):
+                continue
+            ixs = T.find(x.args[1], lambda y: y.op == "mcall" and y.name in ("mask", "first", "last", "lower", "upper", "branch") and
+                         y.args and y.args[0].op == "param" and y.args[0].name == "idx")
+            if ixs is None:
+                continue
+            base = x.args[0].args[0]
+            while base.op == "mcall" and base.name in ("add", "set", "multiply", "divide") and base.args and base.args[0].op == "sub" and \
+                    base.args[0].args[0].op == "attr" and base.args[0].args[0].name == "at":
+                base = base.args[0].args[0].args[0]
+            if not (base.op == "mcall" and base.name in ("zeros", "ones", "full", "empty") and len(base.args) >= 2):
+                continue
+            size = base.args[1]
+            if size.op == "tuple" and len(size.args) == 1:
+                size = size.args[0]
+            if size.key() in seen:
+                continue
+            seen.add(size.key())
+            n += 1
+            padded = size.op == "sub" and size.args[0].op == "attr" and size.args[0].name == "cumsum_ncomp" and size.args[0].args[0].op == "param" and \
+                size.args[0].args[0].name == "idx" and ((size.args[1].op == "unary" and size.args[1].name == "USub") or (size.args[1].op == "const" and size.args[1].name == -1))
+            real = T.find(size, lambda y: y.op == "param" and y.name in ("internal_node_inds", "voltages", "voltage_terms", "constant_terms")) is not None
+            col.add(R, fi, "arrays addressed through the solve indexer have the padded size", "DISCHARGED" if padded else ("VIOLATED" if real else "UNDECIDED"),
+                    "idx.cumsum_ncomp[-1]" if padded else
+                    f"an array of `{size.short(60)}` entries is addressed with `{ixs.short(40)}`: the indexer addresses the padded layout "
+                    f"(idx.cumsum_ncomp[-1] slots); with branches of different lengths in one level the real compartment count is smaller, "
+                    f"scatters beyond the end are dropped and gathers are clamped", node=base.node or fi.node)
+    if n == 0:
+        col.unk(R, fi, "arrays addressed through the solve indexer have the padded size", "no array addressed through the indexer found", node=fi.node)
+
+
 def _assembly_jaxley(repo, col, R=None):
     R = R or "R-C01-assembly"
     fi = repo.func(SV, "step_voltage_implicit_with_jaxley_spsolve")
+    _padded_sizes(repo, col, R, fi)
     tri = repo.func(SV, "_triang_branched")
     ev = _arr_eval(repo)
     cap = {}
